@@ -421,6 +421,51 @@ def _fold_constants(tree: ast.AST):
     T().visit(tree)
 
 
+def _propagate_module_constants(tree: ast.Module) -> int:
+    """a module-level name bound exactly once, to a number / string / None / bool literal, never declared global in a function: its reads
+    inside the module's functions are the literal itself (named constants and magic numbers are the same program)"""
+    import copy as _copy
+    def literal(v):
+        if isinstance(v, ast.Constant) and (v.value is None or isinstance(v.value, (int, float, str, bool))):
+            return True
+        return isinstance(v, ast.UnaryOp) and isinstance(v.op, ast.USub) and isinstance(v.operand, ast.Constant) and isinstance(v.operand.value, (int, float))
+    binds: Dict[str, List[ast.AST]] = {}
+    for s in tree.body:
+        for n in ast.walk(s) if not isinstance(s, (ast.FunctionDef, ast.AsyncFunctionDef, ast.ClassDef)) else []:
+            if isinstance(n, ast.Name) and isinstance(n.ctx, (ast.Store, ast.Del)):
+                binds.setdefault(n.id, []).append(s)
+        if isinstance(s, (ast.FunctionDef, ast.AsyncFunctionDef, ast.ClassDef)):
+            binds.setdefault(s.name, []).append(s)
+        if isinstance(s, (ast.Import, ast.ImportFrom)):
+            for al in s.names:
+                binds.setdefault((al.asname or al.name).split(".")[0], []).append(s)
+    consts = {}
+    for nm, ss in binds.items():
+        if len(ss) == 1 and isinstance(ss[0], ast.Assign) and len(ss[0].targets) == 1 and isinstance(ss[0].targets[0], ast.Name) and literal(ss[0].value):
+            consts[nm] = ss[0].value
+    for n in ast.walk(tree):
+        if isinstance(n, (ast.Global, ast.Nonlocal)):
+            for nm in n.names:
+                consts.pop(nm, None)
+    if not consts:
+        return 0
+    count = 0
+    for fn in [n for n in ast.walk(tree) if isinstance(n, (ast.FunctionDef, ast.AsyncFunctionDef))]:
+        local = {x.id for x in ast.walk(fn) if isinstance(x, ast.Name) and isinstance(x.ctx, (ast.Store, ast.Del))}
+        a_ = fn.args
+        local |= {x.arg for x in a_.args + a_.kwonlyargs + a_.posonlyargs} | ({a_.vararg.arg} if a_.vararg else set()) | ({a_.kwarg.arg} if a_.kwarg else set())
+
+        class T(ast.NodeTransformer):
+            def visit_Name(self, n):
+                nonlocal count
+                if isinstance(n.ctx, ast.Load) and n.id in consts and n.id not in local:
+                    count += 1
+                    return ast.copy_location(_copy.deepcopy(consts[n.id]), n)
+                return n
+        fn.body = [T().visit(s) for s in fn.body]
+    return count
+
+
 def _canonical_comparisons(tree: ast.AST):
     """single comparisons with <, <=, >, >=, ==, != get a canonical operand order (complex expression left, constant right, ties by text),
     so that `a < b` and `b > a` are the same construct for every rule.  Comparisons with None and chained comparisons are left alone."""
@@ -568,6 +613,31 @@ def _canonical_statements(tree: ast.AST):
                             out.append(r2)
                             i += 1
                             continue
+                        # if not C: A else: B  ->  if C: B else: A ;  `is not` / `not in` tests likewise (two real branches, not an elif chain)
+                        if isinstance(st, ast.If) and st.orelse and st.body and not (len(st.orelse) == 1 and isinstance(st.orelse[0], ast.If)) and \
+                                not all(isinstance(x, ast.Pass) for x in st.body) and \
+                                not (isinstance(st.body[-1], (ast.Return, ast.Raise, ast.Continue, ast.Break))):
+                            t_ = st.test
+                            flip = None
+                            if isinstance(t_, ast.UnaryOp) and isinstance(t_.op, ast.Not):
+                                flip = t_.operand
+                            elif isinstance(t_, ast.Compare) and len(t_.ops) == 1 and isinstance(t_.ops[0], (ast.IsNot, ast.NotIn)):
+                                flip = _negate(t_)
+                            if flip is not None:
+                                st.test, st.body, st.orelse = flip, st.orelse, st.body
+                        # if not C: return A ; return B   (end of block)   ->   if C: return B ; return A
+                        if isinstance(st, ast.If) and not st.orelse and len(st.body) == 1 and isinstance(st.body[0], ast.Return) and \
+                                isinstance(nxt, ast.Return) and i + 2 == len(blk):
+                            t_ = st.test
+                            flip = None
+                            if isinstance(t_, ast.UnaryOp) and isinstance(t_.op, ast.Not):
+                                flip = t_.operand
+                            elif isinstance(t_, ast.Compare) and len(t_.ops) == 1 and isinstance(t_.ops[0], (ast.IsNot, ast.NotIn)):
+                                flip = _negate(t_)
+                            if flip is not None:
+                                st.test = flip
+                                st.body[0], blk[i + 1] = blk[i + 1], st.body[0]
+                                nxt = blk[i + 1]
                         # if C: pass else: B   ->   if not C: B
                         if isinstance(st, ast.If) and st.orelse and all(isinstance(x, ast.Pass) for x in st.body):
                             st.test, st.body, st.orelse = _negate(st.test), st.orelse, []
@@ -1298,6 +1368,7 @@ class Model:
                 tree = ast.parse(src, filename=str(p))
             mname = PKG if p.stem == "__init__" else f"{PKG}.{p.stem}"
             _canonical_receivers(tree)
+            _propagate_module_constants(tree)
             self.modules[mname] = Module(mname, f"{PKG}/{p.name}", src, tree)
         from . import inline as _inline
         # names of properties anywhere in the package: reading one runs code, so such a read is never duplicated by a rewriting
